@@ -6,7 +6,9 @@ import Toq.Model.Perms
 Everything here is executable and linked into the driver.  The last section contains *executable
 reference definitions* (`inversions`, `signInv`, `antisymRefN`): they are the Mathlib-free counterparts of the
 mathematical specification in `Toq/Spec/Combinat.lean` (proved equal to it in `Toq/Properties/C18.lean`), so that the
-harness can obtain the mathematically right projector from the driver as well.
+harness can obtain the mathematically right projector from the driver as well.  `symForm` / `antisymForm` mirror the control flow of
+the two projector functions including the `partial` flag (early returns, shapes; `orth` itself is LAPACK and is not modelled), `binom` is the
+rank the isometry forms must have (`Toq.C18.partial_shape`, `symSpec_rank`, `antiSpec_rank`).
 -/
 
 namespace Toq.Combinat
@@ -90,6 +92,9 @@ def perfectMatchings [BEq α] : List α → List (List α)
       lower.map (fun row =>                            -- `tlower_fac[tlower_fac == num[j]] = num[1]`
         a :: x :: row.map (fun y => if y == x then b else y)))
 
+/-- `perfect_matchings(n)` for an `int` argument: `if isinstance(num, int): num = np.arange(num)` -/
+def perfectMatchingsInt (n : Nat) : List (List Nat) := perfectMatchings (List.range n)
+
 /-! ## `symmetric_projection`, `antisymmetric_projection` (dense, `partial=False`), scaled by `p!` -/
 
 /-- `dim * np.ones(p)` -/
@@ -109,6 +114,49 @@ def antisymProjN (d p : Nat) : Nat → Nat → Int :=
   else if d < p then fun _ _ => 0                           -- `return np.zeros((dimp, dimp))`
   else fun i j => List.sum ((permsList p).map (fun s =>
     permSign p (fun k => ((fnOfList s) k : Int) + 1) * permOp (α := Int) p (fnOfList s) (constDims d) false i j))
+
+/-! ## the `partial=True` forms, as far as they are determined without LAPACK
+
+`symmetric_projection(d, p, True)` / `antisymmetric_projection(d, p, True)` return `scipy.linalg.orth(P)`: *some* matrix with
+orthonormal columns spanning the range of `P` (which one is LAPACK's business).  The early returns happen before `partial` is looked
+at; the number of columns `orth` must deliver is the rank of `P`, which is a binomial coefficient (`Toq.C18.partial_shape`). -/
+
+/-- binomial coefficient by Pascal's rule (Mathlib-free; `= Nat.choose`: `Toq.Combinat.binom_eq_choose`) -/
+def binom : Nat → Nat → Nat
+  | _, 0 => 1
+  | 0, _ + 1 => 0
+  | n + 1, k + 1 => binom n k + binom n (k + 1)
+
+/-- what a `partial`-aware call returns -/
+inductive PartialForm where
+  /-- literally `np.eye(n)` (`if p == 1: return np.eye(dim)`) -/
+  | eye (n : Nat)
+  /-- literally `np.zeros((rows, cols))` -/
+  | zeros (rows cols : Nat)
+  /-- the `p!`-scaled integer projector of the dense model (`partial` false) -/
+  | full (rows : Nat)
+  /-- `orth(P)`: orthonormal columns spanning the range of the `rows × rows` projector; `cols` of them -/
+  | orth (rows cols : Nat)
+  deriving Repr, DecidableEq
+
+def PartialForm.shape : PartialForm → Nat × Nat
+  | .eye n => (n, n)
+  | .zeros r c => (r, c)
+  | .full r => (r, r)
+  | .orth r c => (r, c)
+
+/-- control flow of `symmetric_projection(dim, p_val, partial)` (after the two `ValueError` guards) -/
+def symForm (d p : Nat) (part : Bool) : PartialForm :=
+  if p = 1 then .eye d                                       -- `if p_val == 1: return np.eye(dim)`
+  else if part then .orth (d ^ p) (binom (d + p - 1) p)      -- `sym_proj = orth(sym_proj)`
+  else .full (d ^ p)
+
+/-- control flow of `antisymmetric_projection(dim, p_param, partial)` -/
+def antisymForm (d p : Nat) (part : Bool) : PartialForm :=
+  if p = 1 then .eye d                                       -- `if p_param == 1: return np.eye(dim)`
+  else if d < p then .zeros (d ^ p) (d ^ p * (1 - (if part then 1 else 0)))   -- `np.zeros((dimp, dimp * (1 - partial)))`
+  else if part then .orth (d ^ p) (binom d p)                -- `anti_proj = orth(anti_proj)`
+  else .full (d ^ p)
 
 /-! ## executable reference definitions (the specification, Mathlib-free) -/
 
